@@ -184,7 +184,14 @@ EDGE_SP = (0x4001, 0x4000, 0x4002, 0x0001, 0x0000, 0x0002, 0xFFFF, 0x3FFF)
 SANE_SP = (0xFF40, 0x7F00, 0xBFF0, 0x5D00)
 
 
-def gen_code(rnd, org, m128, isr_addr, buf, edge=False):
+# Port-immediate / port-low-byte values at which "port + 1" does or does not carry into the high byte (MEMPTR after IN A,(n)
+# is (A*256 + n + 1) mod 65536, after OUT (n),A it is ((n + 1) mod 256) + 256*A; IN r,(C) / OUT (C),r / INI.. use BC +- 1), and
+# accumulator values whose low bits make that carry show in bits 3 and 5 of MEMPTR's high byte (what BIT n,(HL) copies to F)
+IO_EDGE = (0xFF, 0xFE, 0x00, 0x7F, 0x80, 0x1F)
+IO_A = (0x00, 0x07, 0x7F, 0xFF)
+
+
+def gen_code(rnd, org, m128, isr_addr, buf, edge=False, io=False):
     """A program (list of bytes) looping for ever; fragments chosen to hit the RZX protocol's cases."""
     def w(v):
         return [v & 255, (v >> 8) & 255]
@@ -203,6 +210,36 @@ def gen_code(rnd, org, m128, isr_addr, buf, edge=False):
         if force:
             return f + rnd.choice(([0x76], [0x18, 0xFE], [0xED, 0x57, 0x18, 0xFC], [0xED, 0x5F, 0x18, 0xFC]))
         return f + rnd.choice(([0x76], [0x76], [0x18, 0xFE], [0xED, 0x57, 0x18, 0xFC], [0xED, 0x5F, 0x18, 0xFC], [0x00], []))
+    def io_frag(force=False):
+        # LD HL,buf ; LD A,a / LD BC,a:n ; a port access with an edge port number ; [BIT k,(HL) or BIT k,(IX+d)] ; [F stored]
+        a = rnd.choice(IO_A + (rnd.randrange(256),))
+        pn = rnd.choice(IO_EDGE + ((0xFF,) * 6 if force else (0xFF, 0xFF))) if force or rnd.random() < 0.85 else rnd.randrange(256)
+        kind = 'ina' if force else rnd.choice(('ina', 'ina', 'ina', 'ina', 'outa', 'inr', 'inr', 'ini', 'outc'))
+        f = [0x21] + w(buf)
+        if kind == 'ina':
+            f += [0x3E, a, 0xDB, pn]
+        elif kind == 'outa':
+            f += [0x3E, a, 0xD3, pn]
+        elif kind == 'inr':
+            f += [0x01, pn, a, 0xED, 0x40 + 8 * rnd.randrange(8)]
+        elif kind == 'ini':
+            f += [0x01, pn, a, 0xED, rnd.choice((0xA2, 0xAA))]
+        else:
+            f += [0x01, pn, a, 0xED, 0x41 + 8 * rnd.randrange(8)]
+        x = rnd.random()
+        if force or x < 0.65:
+            f += [0xCB, 0x46 + 8 * rnd.randrange(8)]                                        # BIT k,(HL): F bits 3,5 from MEMPTR
+        elif x < 0.8:
+            f += [rnd.choice((0xDD, 0xFD)), 0xCB, rnd.randrange(256), 0x46 + 8 * rnd.randrange(8)]
+        y = rnd.random()
+        if force or y < 0.45:
+            f += [0xF5, 0xC1, 0x79, 0x32] + w(buf + 32 + rnd.randrange(16))                 # PUSH AF ; POP BC ; LD A,C ; LD (nn),A
+        elif y < 0.65:
+            f += [0xF5, 0xD1]                                                               # PUSH AF ; POP DE
+        elif y < 0.85:
+            f += [0xF5, 0xC1, 0xCB, rnd.choice((0x59, 0x69)), rnd.choice((0x28, 0x20)), 0x01, 0x14]   # PUSH AF ; POP BC ; BIT 3/5,C ; JR Z/NZ,+1 ; INC D
+        return f
+
     n = rnd.choice((24, 48, 90, 140))
     sub = org + n + 12
     code = []
@@ -237,6 +274,7 @@ def gen_code(rnd, org, m128, isr_addr, buf, edge=False):
         (3, lambda: [rnd.choice((0x3C, 0x04, 0x0C, 0x27, 0x2F, 0x87, 0x90, 0xA8, 0x1F, 0x07, 0xD9, 0x08, 0xEB, 0x23, 0x13, 0x34, 0x77, 0x7E))]),
         (2, lambda: [0x32] + w(buf + rnd.randrange(32))),
         (2, lambda: [rnd.randrange(256) for _ in range(rnd.randrange(1, 4))]),              # soup
+        (5, io_frag),                                                                       # port access at an edge port number, MEMPTR made visible
         (4, sp_frag),                                                                       # interrupt accepted with SP at a ROM/RAM or 64K edge
     ]
     def pport(base, fixed):
@@ -265,6 +303,8 @@ def gen_code(rnd, org, m128, isr_addr, buf, edge=False):
     total = sum(x for x, _ in frag_w)
     if edge:
         code += sp_frag(True)
+    if io:
+        code += io_frag(True)
     while len(code) < n:
         x = rnd.randrange(total)
         for wt, fn in frag_w:
@@ -295,7 +335,7 @@ def gen_isr(rnd, org=0x8000):
     return body + tail
 
 
-def gen_machine(rnd, idx, edge=False):
+def gen_machine(rnd, idx, edge=False, io=False):
     """-> abstract start machine (snapfile-style dict; banks as bytearrays).  edge: the program starts with LD SP,<edge
     value> ; IM 1/2 ; EI ; wait, so that it certainly takes a frame interrupt with SP there (both machine types alike)."""
     m128 = rnd.random() < (0.5 if edge else 0.4)
@@ -303,7 +343,7 @@ def gen_machine(rnd, idx, edge=False):
     i_reg = rnd.choice((0xBE, 0x7D, 0x9A))
     isr = (i_reg << 8) + 0x180 + rnd.randrange(64)
     buf = rnd.choice((0x5B00, 0x7000, 0xB000, 0xC000 if m128 else 0xE000))
-    code = gen_code(rnd, org, m128, isr, buf, edge)
+    code = gen_code(rnd, org, m128, isr, buf, edge, io)
     space = bytearray(65536)
     if rnd.random() < 0.25:
         for a in range(0x4000, 65536):
@@ -535,6 +575,8 @@ def record(m, plan, conv, cmio, inmode, inseed, splits=(), empties=False, zero_m
     rec.frames, rec.ends, rec.bounds, rec.events, rec.snaps, rec.snapmode = [], [], [], [], {}, {}
     rec.rmismatch = 0
     rec.intsp = []                                        # (SP, IM, decision) of every accepted interrupt with SP at an edge
+    rec.io = {}                                           # port accesses at edge port numbers / BIT k,(HL) right after an IN
+    prev_in = None
     short = False
     steps = 0
     pi = 0
@@ -547,8 +589,24 @@ def record(m, plan, conv, cmio, inmode, inseed, splits=(), empties=False, zero_m
             b0, b1 = mem[pc], mem[(pc + 1) & 0xFFFF]
             m1 = fetches(b0, b1)
             r0 = r[R]
+            a0 = r[A]
             pm.step_ins = []
             sim.run()
+            if b0 == 0xDB:
+                tag = 'in-a:%02X' % b1 if b1 in IO_EDGE else 'in-a:other'
+                rec.io[tag] = rec.io.get(tag, 0) + 1
+            if prev_in is not None and b0 == 0xCB and (b1 & 0xC7) == 0x46:
+                # BIT k,(HL) right after a port read: F bits 3 and 5 show the high byte of the MEMPTR that the IN left
+                for tag in ('bit-after-in',) + prev_in:
+                    rec.io[tag] = rec.io.get(tag, 0) + 1
+            if b0 == 0xDB:
+                prev_in = ('bit-after-in-a-%02X' % b1,) if b1 in IO_EDGE else ()
+                if b1 == 0xFF and a0 & 7 == 7:
+                    prev_in += ('bit-after-in-a-FF-carry-in-f',)
+            elif b0 == 0xED and (b1 & 0xC7 == 0x40 or b1 in (0xA2, 0xAA, 0xB2, 0xBA)):
+                prev_in = ('bit-after-in-c',)
+            else:
+                prev_in = None
             steps += 1
             if not (b0 == 0xED and b1 == 0x4F) and ((r[R] - r0) & 0x7F) != m1:
                 rec.rmismatch += 1
@@ -843,7 +901,9 @@ def probe_machine(rnd, idx):
 def one_recording(rseed, wd, idx, tier, cases, traces, stats):
     """Everything about recording `idx` derives from rseed, so that a replay can make it again."""
     rnd = random.Random(rseed)
-    m = gen_machine(rnd, idx, edge=idx % 8 == 1)          # one recording in eight is certain to take an interrupt with SP at an edge
+    # one recording in eight is certain to take an interrupt with SP at an edge, another one starts with IN A,(n) at an edge
+    # port number followed by BIT k,(HL) and a store of F
+    m = gen_machine(rnd, idx, edge=idx % 8 == 1, io=idx % 8 == 2)
     plan = gen_plan(rnd, 10 if tier == 'quick' else 14)
     conv = rnd.randrange(4)
     fmt = gen_fmt(rnd, m)
@@ -851,6 +911,8 @@ def one_recording(rseed, wd, idx, tier, cases, traces, stats):
         # regression case (fixed finding stop:z80v1-pc0): two of the sixteen campaigns start with it
         m, plan, fmt = probe_machine(rnd, idx)
         stats['probe:z80v1-pc0'] += 1
+    if idx % 8 == 2 and fmt[0] != 'szx' and rnd.random() < 0.75:
+        fmt = ('szx', None, fmt[2])                       # mostly in the format that carries MEMPTR (compared at every stop and at the end)
     inmode = rnd.choice(('const', 'port', 'few', 'random'))
     nsplit = rnd.choice((0, 0, 0, 1, 1, 2))
     splits = tuple(sorted(set(rnd.randrange(1, len(plan) + 1) for _ in range(nsplit))))
@@ -902,6 +964,12 @@ def one_recording(rseed, wd, idx, tier, cases, traces, stats):
                 stats['int-sp-split:im%d' % im] += 1
                 stats['int-sp-split:%s' % ('48K' if m['machine'] == '48K' else '128K')] += 1
                 stats['int-sp-split:%s' % dec] += 1
+    if cmio_ok:
+        # vacuity: what the contended playbacks (C and --python, both played below) of this recording execute
+        for tag, v in recs[1].io.items():
+            stats['cmio:' + tag] += v
+            if fmt[0] == 'szx':
+                stats['cmio-szx:' + tag] += v
     stats['repeat-markers'] += sum(1 for b in files[0][1] for f in b['fs'] if f[1] == 65535)
     feclaim = 1 if fmt[0] == 'szx' else 0
     common = {'rec': idx, 'rseed': rseed, 'tier': tier, 'key': key, 'conv': conv, 'fmt': [fmt[0], fmt[1] or 0, 1 if fmt[2] else 0], 'feclaim': feclaim}
